@@ -27,6 +27,7 @@ import (
 	"strconv"
 	"strings"
 	"time"
+	_ "time/tzdata" // the zone database for the process zones of setLocal, independent of the machine
 	"unicode/utf8"
 
 	"github.com/pinealctx/neptune/jsonx"
@@ -612,13 +613,27 @@ var b32Boundary = []string{"0", "v", "10", "vv", "7vvvvvvvvvvvv", "8000000000000
 
 func genBaseText(t *rapid.T) string {
 	s := genSign(t, "bsign")
-	switch pick(t, "bkind", 4) {
+	switch pick(t, "bkind", 5) {
 	case 0:
 		s += choose(t, "hexb", hexBoundary)
 	case 1:
 		s += choose(t, "b32b", b32Boundary)
 	case 2:
 		s += rapid.StringOfN(rapid.RuneFrom([]rune("0123456789abcdefABCDEF")), 1, 18, -1).Draw(t, "hexr")
+	case 3: // a radix prefix as Go's (and C's) literals have it, often with the digit separator of those literals
+		digits := choose(t, "pfxd", []string{"0", "1f", "ff", "7fffffff", "ffffffff", "7fffffffffffffff", "8000000000000000", "ffffffffffffffff", "10000000000000000",
+			"7FFFFFFFFFFFFFFF", "1000", "deadbeef", "777", "101", "19"})
+		if rapid.Bool().Draw(t, "pfxrnd") {
+			digits = rapid.StringOfN(rapid.RuneFrom([]rune("0123456789abcdefABCDEF")), 1, 17, -1).Draw(t, "pfxr")
+		}
+		switch pick(t, "pfxsep", 4) {
+		case 0: // one separator between two digits or right after the prefix
+			pos := rapid.IntRange(0, len(digits)-1).Draw(t, "pfxpos")
+			digits = digits[:pos] + "_" + digits[pos:]
+		case 1:
+			digits += choose(t, "pfxtail", []string{"_000", "_0", "_f", "_ff_ff", "_", "__0"})
+		}
+		s += choose(t, "pfx", []string{"0x", "0X", "0x", "0X", "0b", "0o", "0B", "0O", "0", "x", "#", "16r"}) + digits
 	default:
 		s += rapid.StringOfN(rapid.RuneFrom([]rune("0123456789abcdefghijklmnopqrstuvV")), 1, 15, -1).Draw(t, "b32r")
 	}
@@ -1002,6 +1017,39 @@ type RTCase struct {
 	Raw  []byte `json:"raw"`  // Base64Bytes
 	Zone int    `json:"zone"` // location of the time values: 0 local, 1 UTC, 2 fixed +08:00
 	W32  uint32 `json:"w32"`  // a 32-bit pattern handed to Unix2Time / UnixNano2Time Scan as uint32 and as int32
+	// Local, if > 0, is the zone (procZones[Local-1]) the process-local zone time.Local is for the duration of the case
+	Local int `json:"local,omitempty"`
+}
+
+// The process-local zone. The values of the types are instants (or integers); no round trip may depend on the zone the
+// process happens to run in. The machine's zone is UTC, so some cases run in another one: time.Local points at a
+// Location inside package time that is filled in lazily from TZ / /etc/localtime, and code that copied the pointer keeps
+// seeing that Location. setLocal therefore replaces the CONTENT of that Location (after forcing the lazy
+// initialisation), which is exactly the state of a process started in the other zone, and puts the old content back
+// afterwards. Cases run one at a time in their process.
+var procZoneNames = []string{"America/New_York", "Australia/Lord_Howe", "Europe/Berlin", "Asia/Kolkata", "America/St_Johns", "Pacific/Apia"}
+
+var localForced = time.Local.String()
+
+var procZones = func() []*time.Location {
+	var out []*time.Location
+	for _, n := range procZoneNames {
+		l, err := time.LoadLocation(n)
+		if err != nil {
+			panic("c20texjson: zone " + n + " not available: " + err.Error())
+		}
+		out = append(out, l)
+	}
+	return out
+}()
+
+func setLocal(idx int) (restore func()) {
+	if idx <= 0 || idx > len(procZones) {
+		return func() {}
+	}
+	saved := *time.Local
+	*time.Local = *procZones[idx-1]
+	return func() { *time.Local = saved }
 }
 
 var i64Edges = []int64{math.MinInt64, math.MinInt64 + 1, -1, 0, 1, math.MaxInt64 - 1, math.MaxInt64, math.MaxInt32, math.MinInt32, math.MaxInt32 + 1,
@@ -1102,6 +1150,9 @@ func GenRT(t *rapid.T) RTCase {
 		c.Raw = nil
 	}
 	c.Zone = rapid.IntRange(0, 2).Draw(t, "zone")
+	if pick(t, "local?", 8) == 0 {
+		c.Local = 1 + pick(t, "local", len(procZoneNames))
+	}
 	if rapid.Bool().Draw(t, "w32k") {
 		c.W32 = choose(t, "w32edge", []uint32{0, 1, 1<<31 - 1, 1 << 31, 1<<31 + 1, math.MaxUint32, math.MaxUint32 - 1, 1700000000, 3000000000, 4102444800, 1 << 16, 1 << 24, 0xC0000000})
 	} else {
@@ -1137,6 +1188,20 @@ func keep(site, what string, b []byte) {
 	keptOutputs = append(keptOutputs, keptOutput{site, what, b, append([]byte(nil), b...)})
 }
 
+// keptStrings: the same for outputs of type string (JsByte.ToString, Base64Bytes.Value, the hex helpers): a Go string
+// is immutable, so the one handed out has to read the same for ever; the copy is a private one (not a second header
+// for the same bytes).
+type keptString struct {
+	site, what string
+	out, copy  string
+}
+
+var keptStrings []keptString
+
+func keepStr(site, what, s string) {
+	keptStrings = append(keptStrings, keptString{site, what, s, string(append([]byte(nil), s...))})
+}
+
 // keepValue retains a decoded value if it is backed by a slice.
 func keepValue(name, path string, v any) {
 	switch x := v.(type) {
@@ -1148,9 +1213,15 @@ func keepValue(name, path string, v any) {
 }
 
 func checkKept(res *vkit.Result) {
-	defer func() { keptOutputs = keptOutputs[:0] }()
+	defer func() { keptOutputs, keptStrings = keptOutputs[:0], keptStrings[:0] }()
 	if res.Fail != nil {
 		return
+	}
+	for _, k := range keptStrings {
+		if k.out != k.copy {
+			res.Failf(k.site, "%s was %q; after the later calls of the case the same string reads %q", k.what, k.copy, k.out)
+			return
+		}
 	}
 	for _, k := range keptOutputs {
 		if !bytes.Equal(k.out, k.copy) {
@@ -1319,6 +1390,7 @@ func checkHexPair[V int64 | uint64](res *vkit.Result, name string, base int, v V
 		return
 	}
 	s := enc(v)
+	keepStr("encode/"+name+"/retained", "the string "+name+" returned", s)
 	if d := baseValue(s, base); d == nil || d.String() != fmt.Sprint(v) || strings.Trim(s, blanks) != s {
 		res.Failf("encode/"+name, "%s(%d) = %q, which in base %d denotes %v", name, v, s, base, d)
 		return
@@ -1331,7 +1403,8 @@ func checkHexPair[V int64 | uint64](res *vkit.Result, name string, base int, v V
 
 func ExecRT(c RTCase) *vkit.Result {
 	res := &vkit.Result{}
-	keptOutputs = keptOutputs[:0]
+	keptOutputs, keptStrings = keptOutputs[:0], keptStrings[:0]
+	defer setLocal(c.Local)()
 	if c.Nsec < 0 || c.Nsec > 999999999 {
 		res.Skip("nsec-out-of-range")
 		c.Nsec = 0
@@ -1377,6 +1450,7 @@ func ExecRT(c RTCase) *vkit.Result {
 	if res.Fail == nil {
 		b := tex.JsByte(c.B)
 		s := b.ToString()
+		keepStr("encode/JsByte/ToString/retained", "the string JsByte.ToString returned", s)
 		js := b.ToJS()
 		keep("encode/JsByte/ToJS/retained", "the text JsByte.ToJS returned", js)
 		if string(js) != s {
@@ -1476,6 +1550,7 @@ func ExecRT(c RTCase) *vkit.Result {
 		if !ok {
 			res.Failf("sql/Base64Bytes", "Base64Bytes.Value() is a %T, want string", v)
 		} else {
+			keepStr("sql/Base64Bytes/Value/retained", "the string Base64Bytes.Value returned", s)
 			for _, in := range []any{s, []byte(s)} {
 				back := tex.Base64Bytes{7, 7}
 				if err := back.Scan(in); err != nil || !bytes.Equal(back, c.Raw) {
@@ -1530,6 +1605,7 @@ func ExecRT(c RTCase) *vkit.Result {
 				_, _ = r1.Scan(s), r2.Scan([]byte(s))
 			}
 		}
+		_, _, _, _ = tex.I64Hex(^c.I), tex.I64HexV2(^c.I), tex.U64Hex(^c.U), tex.U64HexV2(^c.U)
 	}
 	checkKept(res)
 	classifyRT(res, c)
@@ -1596,6 +1672,12 @@ func classifyRT(res *vkit.Result, c RTCase) {
 	if c.Nano < 0 && c.Nano%1000000000 != 0 {
 		res.Class("nano-instant-before-1970-with-fraction")
 	}
+	if c.Local > 0 && c.Local <= len(procZoneNames) {
+		res.Class("process-zone=" + procZoneNames[c.Local-1])
+		if c.Zone == 1 {
+			res.Class("process-zone-not-utc,value-in-utc")
+		}
+	}
 	res.Class(fmt.Sprintf("base64-len%%3=%d", len(c.Raw)%3))
 	if c.Raw == nil {
 		res.Class("base64-nil")
@@ -1606,14 +1688,14 @@ func classifyRT(res *vkit.Result, c RTCase) {
 
 var PartRT = &vkit.Part[RTCase]{
 	Property: Property, Name: "roundtrip",
-	Rule:  "rapid: one value for every type per case - int64/uint64 from edges (min, max, +-1, 2^31, 2^32, 2^53+1, 2^63, the repo tests' literals), small and uniform; byte lists nil / empty / 1 / 2..40 elements biased to 0, 255, '/' and digits, 2.5% with 63, 64, 65, 100 or 300 elements; instants as (seconds over all of int64 incl. year 1/9999/min/max, nanoseconds 0..999999999) and as int64 nanoseconds, in Local/UTC/+08:00; durations 0, +-1ns, min, max, unit boundaries, uniform, and everyday shapes (h 0..300, m and s 0..59 or a multiple of 10 s, ms/us/ns parts from 0, 1, 10, 100, 500, 999, i.e. texts like 10s, 1m30s, 2h45m10s, 100ms, 1.5s); a 32-bit pattern from edges (2^31-1, 2^31, 2^32-1 ...) or uniform; raw bytes of every length mod 3. Each JSON type goes through MarshalJSON (whose text must denote the value under the math/big reading) and UnmarshalJSON directly and as a struct member through all 9 pairings of encoding/json, jsonx std and jsonx fast; JsByte To/FromString; Duration TOML; SQL Value (must be a driver.Value) then Scan for UnixStamp, SQLTime2Unix, UnixNano2Time, Unix2Time (plus every integer kind Scan accepts over its whole range: int32 and uint32 from the 32-bit pattern, int/int64/uint/uint64 from the 64-bit fields), Base64Bytes (string and []byte); the byte list and a second, different one as two members of one document through the libraries; I64Hex/U64Hex/I64HexV2/U64HexV2 and back. Every text MarshalJSON / ToJS returned and every decoded list / byte string is kept and read again at the end of the case, after other values went through all encoders and decoders; a decoded value also has to survive the caller overwriting the input buffer. Non-trivial: some field is not the zero value; distinct = distinct case JSON",
+	Rule:  "rapid: one value for every type per case - int64/uint64 from edges (min, max, +-1, 2^31, 2^32, 2^53+1, 2^63, the repo tests' literals), small and uniform; byte lists nil / empty / 1 / 2..40 elements biased to 0, 255, '/' and digits, 2.5% with 63, 64, 65, 100 or 300 elements; instants as (seconds over all of int64 incl. year 1/9999/min/max, nanoseconds 0..999999999) and as int64 nanoseconds, in Local/UTC/+08:00; durations 0, +-1ns, min, max, unit boundaries, uniform, and everyday shapes (h 0..300, m and s 0..59 or a multiple of 10 s, ms/us/ns parts from 0, 1, 10, 100, 500, 999, i.e. texts like 10s, 1m30s, 2h45m10s, 100ms, 1.5s); a 32-bit pattern from edges (2^31-1, 2^31, 2^32-1 ...) or uniform; raw bytes of every length mod 3. Each JSON type goes through MarshalJSON (whose text must denote the value under the math/big reading) and UnmarshalJSON directly and as a struct member through all 9 pairings of encoding/json, jsonx std and jsonx fast; JsByte To/FromString; Duration TOML; SQL Value (must be a driver.Value) then Scan for UnixStamp, SQLTime2Unix, UnixNano2Time, Unix2Time (plus every integer kind Scan accepts over its whole range: int32 and uint32 from the 32-bit pattern, int/int64/uint/uint64 from the 64-bit fields), Base64Bytes (string and []byte); the byte list and a second, different one as two members of one document through the libraries; I64Hex/U64Hex/I64HexV2/U64HexV2 and back. Every text MarshalJSON / ToJS returned and every decoded list / byte string is kept and read again at the end of the case, after other values went through all encoders and decoders; a decoded value also has to survive the caller overwriting the input buffer; the strings ToString, Base64Bytes.Value and the hex helpers returned are kept and read again in the same way. One case in eight runs with the process-local zone (content of time.Local, swapped for the case) set to America/New_York, Australia/Lord_Howe, Europe/Berlin, Asia/Kolkata, America/St_Johns or Pacific/Apia. Non-trivial: some field is not the zero value; distinct = distinct case JSON",
 	Quick: 36000, Thorough: 60000,
 	Gen: GenRT, Exec: ExecRT,
 }
 
 var PartToken = &vkit.Part[TokenCase]{
 	Property: Property, Name: "token",
-	Rule:  "rapid: one well-formed JSON scalar token per case from a grammar - 24% bare numbers -?int[.frac][e[+-]exp] (int from range boundaries of byte/int32/int64/uint64 +-1, 2^k+-1, 1..25 random digits, small), 3% null/true/false, 3% encoder output, the rest strings whose content is [blank][sign]digits[junk][blank] (leading zeros, 20+ digits; 5% malformed signs: doubled, separated from the digits, preceded by zeros or junk; 6% one character next to the digits in ASCII - : ; < = @ / . ` - or another foreign one put at any position), a '/'-list of such elements (with 256, -1, empty and odd elements; now and then 63, 64, 65, 100 or 300 bytes with at most one odd element), empty/blank, duration literals, hex/base-32 digit strings; 10% of strings written with \\u00XX or \\/ escapes. The token is given to UnmarshalJSON of JsInt64, JsUInt64, UnixStamp, JsUnixTime, JsNanoTime, JsByte, Duration directly and embedded in {\"v\":token} (25% padded with blanks and neighbours) through encoding/json, jsonx std and jsonx fast, onto targets preset to a sentinel; its text also to JsByte.FromString, Duration.UnmarshalTOML, HexI64/HexU64/HexI64V2/HexU64V2. Oracle: a math/big reading of the text written from the statement: a nil error obliges the decoder to exactly the denoted in-range value (empty content: zero allowed; null: sentinel unchanged allowed; surrounding blanks may be rejected or ignored); junk, fractions, out-of-range, non-byte elements, true/false require an error. Non-trivial: the token is not something the encoders under test emit (canonical decimal / byte list / Duration.String in an unescaped string); distinct = distinct case JSON",
+	Rule:  "rapid: one well-formed JSON scalar token per case from a grammar - 24% bare numbers -?int[.frac][e[+-]exp] (int from range boundaries of byte/int32/int64/uint64 +-1, 2^k+-1, 1..25 random digits, small), 3% null/true/false, 3% encoder output, the rest strings whose content is [blank][sign]digits[junk][blank] (leading zeros, 20+ digits; 5% malformed signs: doubled, separated from the digits, preceded by zeros or junk; 6% one character next to the digits in ASCII - : ; < = @ / . ` - or another foreign one put at any position), a '/'-list of such elements (with 256, -1, empty and odd elements; now and then 63, 64, 65, 100 or 300 bytes with at most one odd element), empty/blank, duration literals, hex/base-32 digit strings (a fifth of them with a radix prefix 0x 0X 0b 0o 0 x # 16r, half of those with the digit separator _ between digits, after the prefix or as a tail like _000); 10% of strings written with \\u00XX or \\/ escapes. The token is given to UnmarshalJSON of JsInt64, JsUInt64, UnixStamp, JsUnixTime, JsNanoTime, JsByte, Duration directly and embedded in {\"v\":token} (25% padded with blanks and neighbours) through encoding/json, jsonx std and jsonx fast, onto targets preset to a sentinel; its text also to JsByte.FromString, Duration.UnmarshalTOML, HexI64/HexU64/HexI64V2/HexU64V2. Oracle: a math/big reading of the text written from the statement: a nil error obliges the decoder to exactly the denoted in-range value (empty content: zero allowed; null: sentinel unchanged allowed; surrounding blanks may be rejected or ignored); junk, fractions, out-of-range, non-byte elements, true/false require an error. Non-trivial: the token is not something the encoders under test emit (canonical decimal / byte list / Duration.String in an unescaped string); distinct = distinct case JSON",
 	Quick: 90000, Thorough: 200000,
 	Gen: GenToken, Exec: ExecToken,
 }
